@@ -249,6 +249,10 @@ def parse_impl(entry, cls, path=None, content=None, data_type=None, file_name=""
             i.parse_file(path, autocorrect=autocorrect, header_only=header_only)
         elif entry == "str":
             i.parse_str(content, data_type, file_name=file_name, autocorrect=autocorrect, header_only=header_only)
+        elif entry == "str_default":        # file_name left to its default
+            i.parse_str(content, data_type, autocorrect=autocorrect, header_only=header_only)
+        elif entry == "str_positional":     # the documented parameter order, all positional
+            i.parse_str(content, data_type, file_name, autocorrect, header_only)
         elif entry == "url":
             i.parse_url("file://" + path, autocorrect=autocorrect, header_only=header_only)
         elif entry == "ctor":
